@@ -16,6 +16,12 @@ CHECKS = {
  "C09": ("exhaustive differential enumeration of expression trees: Reduce vs Eval",
          "Every well-typed expression tree of depth <= 2 over all 16 operators and boundary values of the five kinds, each leaf a literal, a variable bound at Reduce time or a variable bound only at Eval time (all splits of the assignment), is folded by the real Reduce and evaluated by the real Eval before and after; results must agree in dynamic type and value, and reducing twice must equal reducing once. Time arithmetic is compared with exact int64 nanosecond arithmetic over instants x durations x zones.",
          "Well-typedness is decided by the generator's own typing rule (documented in the evidence assumptions). Trees deeper than 2 and values outside the tables are not visited.", "3/C09"),
+ "C19": ("deviation-bounded exhaustive enumeration of SELECT source trees and statement kinds",
+         "xplore enumerates every SELECT within d deviations (4 quick, 6 thorough) of the minimal one over source forms (m, rp.m, db.rp.m, db..m, /re/, db.rp./re/, subqueries to depth 3, lists of 1-3) x every INTO form x EXPLAIN wrappers, with a distinct database per position; RequiredPrivileges must list READ for every database placed at any depth and WRITE for the target. Every statement kind (all SHOW forms with every ON/FROM/EXACT/WHERE subset) must report a non-empty list, and the administrative kinds must require admin.",
+         "The list of administrative kinds is transcribed from the property text. CQ bodies are only checked for non-emptiness.", "3/C19"),
+ "C20": ("exhaustive enumeration of field lists with invariant oracle",
+         "Every field list up to length 3 (4 thorough) over a 24-field alphabet built to collide (repeated names, aliases equal to generated suffixes, top/bottom with tag arguments, time, nameless literals), and up to length 4 (5) over a 12-field core, x INTO/no INTO x raw/RewriteTimeFields/OmitTime; ColumnNames must have the right length, time first, aliases verbatim, pairwise-distinct names when aliases are distinct, and be pure (two calls equal, statement fingerprint unchanged).",
+         "Invariants only; no reference naming algorithm.", "3/C20"),
 }
 ALL = ["C%02d" % i for i in range(1, 21)]
 NOT_YET = "check not built yet in this revision of /verif (work in progress; see DESIGN.md section 3 for the planned bounded-exhaustive check)"
